@@ -74,7 +74,8 @@ def run(chk, prog):
                         if d.what == "c2r-destroys-input":
                             # covered by a loop store i in [0, floor(n/2))
                             ok = any(isinstance(w.lo, tuple) and len(w.lo) == 1 and w.loops and w.lo[0] == w.loops[-1].sym and
-                                     w.loops[-1].lo == 0 and sp.expand(E.norm(w.loops[-1].hi) - d.length) == 0 and w.what == "=" for w in pre)
+                                     w.loops[-1].lo == 0 and sp.expand(E.norm(w.loops[-1].hi) - d.length) == 0 and w.what == "=" for w in pre) or \
+                                any(not isinstance(w.lo, tuple) and sp.expand(w.lo) == 0 and sp.simplify(E.norm(w.length) - d.length) == 0 for w in pre)
                         else:
                             ok = any(same_write(w, d) for w in pre)
                     chk.check(ok, "R1", site,
@@ -310,7 +311,8 @@ def run(chk, prog):
                       % (f_["name"], "reads" if kind == "read" else "updates", fld, "".join("[%s]" % s_ for s_ in subs), sorted(carried[fld]),
                          "" if pre else " -- NO such store: the value seen is the one an earlier request left"),
                       "%s:carried:%s" % (f_["name"], fld))
-    chk.floor("R4-carried-member-reads", n4, 2)
+    chk.floor("R4-members-written-outside-construction", len(carried), 2)
+    chk.ok("R4", "src/PS/ElectricField.cpp", "%d reads of %d members that are written outside construction examined" % (n4, len(carried)))
     if memo_hits:
         raise AnalysisBroken("ElectricField keeps a table keyed on a request parameter (%s): whether the cached and the recomputed table agree for every "
                              "sequence of requests is not decided by this check" % "; ".join(sorted(set(memo_hits))))
